@@ -161,6 +161,9 @@ func (en *Engine) step(st *State) []*State {
 		f.env[x] = en.execUnOp(st, f, x)
 	case *ssa.IndexAddr:
 		f.env[x] = en.execIndexAddr(st, f, x)
+		if p, ok := f.env[x].(PtrV); ok && !st.done {
+			en.elemInvAssume(st, p)
+		}
 	case *ssa.FieldAddr:
 		p := en.get(st, f, x.X).(PtrV)
 		if p.R == nil {
@@ -204,6 +207,7 @@ func (en *Engine) step(st *State) []*State {
 		} else {
 			en.store(st, p, en.get(st, f, x.Val))
 		}
+		en.elemInvCheck(st, p.R, p.Path, posOf(en, x.Pos()))
 	case *ssa.Convert:
 		f.env[x] = en.execConvert(st, f, x)
 	case *ssa.ChangeType:
@@ -789,6 +793,86 @@ func (en *Engine) execTypeAssert(st *State, f *Frame, x *ssa.TypeAssert) []*Stat
 
 // noteRead/noteWrite are hooks for the frame/flow back end.
 func (en *Engine) noteRead(st *State, p PtrV, pos string)  {}
+// ---------- element invariants ----------
+
+// elemInvLookup: is (r, path) inside an array carrying an element invariant of the function under
+// verification? Returns the pointer to the element and the predicate.
+func (en *Engine) elemInvLookup(st *State, r *Region, path []PathEl) (PtrV, *ElemInvSpec, bool) {
+	if len(st.frames) == 0 {
+		return PtrV{}, nil, false
+	}
+	f := st.frames[0]
+	if f.spec == nil || f.spec.fc == nil || len(f.spec.fc.ElemInv) == 0 {
+		return PtrV{}, nil, false
+	}
+	for i := range f.spec.fc.ElemInv {
+		ei := &f.spec.fc.ElemInv[i]
+		var loc Value
+		func() {
+			defer func() {
+				if rec := recover(); rec != nil {
+					if _, ok := rec.(execError); !ok {
+						panic(rec)
+					}
+				}
+			}()
+			sc := *f.spec
+			sc.st = st
+			sc.locals = en.localsResolver(st, f)
+			loc = sc.lvalue(ei.Arr.Expr)
+		}()
+		a, ok := loc.(PtrV)
+		if !ok || a.R != r || len(path) <= len(a.Path) {
+			continue
+		}
+		match := true
+		for k, e := range a.Path {
+			if e.Idx != nil || path[k].Idx != nil || e.Field != path[k].Field {
+				match = false
+			}
+		}
+		if !match || path[len(a.Path)].Idx == nil {
+			continue
+		}
+		return PtrV{R: r, Path: path[:len(a.Path)+1]}, ei, true
+	}
+	return PtrV{}, nil, false
+}
+
+func (en *Engine) elemInvPred(st *State, elem PtrV, ei *ElemInvSpec) *Term {
+	f := st.frames[0]
+	sc := *f.spec
+	sc.st = st
+	sc.locals = en.localsResolver(st, f)
+	n := sc.child()
+	n.env["elem"] = elem
+	return n.evalBool(ei.Pred.Expr)
+}
+
+// elemInvAssume: an element of an invariant-carrying array is addressed: its invariant holds.
+func (en *Engine) elemInvAssume(st *State, p PtrV) {
+	if st.quantDepth > 0 || p.R == nil {
+		return
+	}
+	elem, ei, ok := en.elemInvLookup(st, p.R, p.Path)
+	if !ok {
+		return
+	}
+	st.assume(en.elemInvPred(st, elem, ei))
+}
+
+// elemInvCheck: after a write into an element of an invariant-carrying array the invariant holds again.
+func (en *Engine) elemInvCheck(st *State, r *Region, path []PathEl, pos string) {
+	if r == nil || st.done {
+		return
+	}
+	elem, ei, ok := en.elemInvLookup(st, r, path)
+	if !ok {
+		return
+	}
+	en.addObl(st, "elem-inv", en.elemInvPred(st, elem, ei), "element invariant "+ei.Pred.Src+" of "+ei.Arr.Src+" holds after the write", pos)
+}
+
 // writeFrame: the locations a function may write according to its `modifies` clause, resolved
 // at entry. Every program-level write (store instruction, copy, library model, callee's
 // modifies clause) to memory that existed at entry must fall inside it: obligation `wframe`.
@@ -832,6 +916,9 @@ func (en *Engine) checkWrite(st *State, r *Region, path []PathEl, off, n *Term, 
 	}
 	if !wf.entry[r] {
 		_, fromInit := en.initMem[r]
+		if r.kind == "param-elem" {
+			fromInit = true // elements of a caller-supplied slice of slices
+		}
 		if !fromInit && (r.kind != "global" || r.global == nil || r.global.Pkg == nil || !modulePkg(r.global.Pkg.Pkg.Path())) {
 			return // memory allocated by this call
 		}
